@@ -42,9 +42,9 @@ def draw_group(rng: random.Random, template: str, *, kind=None, graft=None, filt
     if not t["ignored"] and rng.random() < 0.3:
         override = rng.choice([1, 2, 4, [2, 3, 4], [1]])
     if kind == "shampoo":
-        method = method or rng.choice(["eigen", "eigen", "eigen", "eigen_stab"])
+        method = method if method in ("eigen", "eigen_stab", "newton", "higher") else rng.choice(["eigen", "eigen", "eigen", "eigen_stab"])
     else:
-        method = method or rng.choice(["eigh", "eigh", "qr"])
+        method = method if method in ("eigh", "qr") else rng.choice(["eigh", "eigh", "qr"])
     lr1, lr2 = rng.sample(DYADIC_LR, 2)
     wd1 = rng.choice([0.01, 0.1, 0.25])
     wd_on = rng.random() < 0.5 if wd_on is None else wd_on
